@@ -398,6 +398,10 @@ type LoopSpec struct {
 	Invariants []Clause
 	Decreases  *Clause
 	Modifies   []string
+	// Applies are lemma instances assumed at every back edge ("apply
+	// lemma(args)"; prev(e) is e at the loop head of the same iteration).
+	Applies     []Clause
+	HeadApplies []Clause // instances assumed at the loop head ("apply_head")
 }
 
 type ParamDecl struct {
@@ -422,6 +426,8 @@ type FuncSpec struct {
 	PanicWhen []Clause
 	Lets      []ParamDecl // let name = expr (Type holds the source)
 	File      string
+	Uses      []string // lemmas assumed (as quantified facts) while verifying this function
+	Applies   []Clause // lemma instances assumed at function entry
 }
 
 type SpecFn struct {
@@ -433,6 +439,7 @@ type SpecFn struct {
 	Decreases Expr
 	Ensures   []Clause
 	Recursive bool
+	Opaque    bool
 	Pkg       string
 }
 
@@ -442,9 +449,11 @@ type LemmaSpec struct {
 	Requires []Clause
 	Ensures  []Clause
 	Induct   string // variable to do induction on (nat, by predecessor)
+	Strong   bool   // strong induction: hypothesis for all smaller values
 	Uses     []string
 	Pkg      string
 	Calls    []LemmaCall
+	Applies  []Clause // ground instances of other lemmas used in the proof
 }
 
 // LemmaCall is "call r = F(args)" inside a lemma: F is applied by contract.
@@ -469,7 +478,7 @@ func newContractSet() *ContractSet {
 var clauseKeywords = map[string]bool{
 	"requires": true, "ensures": true, "modifies": true, "loop": true, "invariant": true,
 	"decreases": true, "func": true, "extern": true, "spec": true, "lemma": true, "pure": true,
-	"inline": true, "panics": true, "trusted": true, "induction": true, "use": true, "let": true, "call": true,
+	"inline": true, "panics": true, "trusted": true, "induction": true, "use": true, "def": true, "call": true, "apply": true, "apply_head": true, "opaque": true,
 }
 
 // parseContractText parses the body of one or more /*@ ... @*/ blocks (already
@@ -582,9 +591,9 @@ func (cs *ContractSet) parseContractText(text, pkgPath, file string) error {
 			default:
 				return fmt.Errorf("%s: misplaced %s clause: %s", file, kw, rest)
 			}
-		case "let":
+		case "def":
 			if curF == nil {
-				return fmt.Errorf("%s: misplaced let", file)
+				return fmt.Errorf("%s: misplaced def", file)
 			}
 			i := strings.Index(rest, "=")
 			if i < 0 {
@@ -608,6 +617,26 @@ func (cs *ContractSet) parseContractText(text, pkgPath, file string) error {
 				return fmt.Errorf("%s: call clause needs F(args)", file)
 			}
 			curLem.Calls = append(curLem.Calls, LemmaCall{Result: strings.TrimSpace(rest[:i]), Fn: call.Fn, Args: call.Args, Src: rest})
+		case "apply", "apply_head":
+			e, err := parseExpr(rest)
+			if err != nil {
+				return fmt.Errorf("%s: apply: %v", file, err)
+			}
+			if _, ok := e.(*ECall); !ok {
+				return fmt.Errorf("%s: apply needs lemma(args)", file)
+			}
+			switch {
+			case curLem != nil:
+				curLem.Applies = append(curLem.Applies, Clause{Src: rest, E: e})
+			case curL != nil && kw == "apply_head":
+				curL.HeadApplies = append(curL.HeadApplies, Clause{Src: rest, E: e})
+			case curL != nil:
+				curL.Applies = append(curL.Applies, Clause{Src: rest, E: e})
+			case curF != nil:
+				curF.Applies = append(curF.Applies, Clause{Src: rest, E: e})
+			default:
+				return fmt.Errorf("%s: misplaced apply", file)
+			}
 		case "modifies":
 			names := splitComma(rest)
 			if curL != nil {
@@ -625,6 +654,10 @@ func (cs *ContractSet) parseContractText(text, pkgPath, file string) error {
 			}
 			curL = &LoopSpec{Ordinal: n}
 			curF.Loops[n] = curL
+		case "opaque":
+			if curS != nil {
+				curS.Opaque = true
+			}
 		case "pure":
 			if curF != nil {
 				curF.Pure = true
@@ -643,11 +676,18 @@ func (cs *ContractSet) parseContractText(text, pkgPath, file string) error {
 			}
 		case "induction":
 			if curLem != nil {
-				curLem.Induct = strings.TrimSpace(strings.TrimPrefix(strings.TrimSpace(rest), "on"))
+				r := strings.TrimSpace(rest)
+				if strings.HasPrefix(r, "strong") {
+					curLem.Strong = true
+					r = strings.TrimSpace(strings.TrimPrefix(r, "strong"))
+				}
+				curLem.Induct = strings.TrimSpace(strings.TrimPrefix(r, "on"))
 			}
 		case "use":
 			if curLem != nil {
 				curLem.Uses = append(curLem.Uses, splitComma(rest)...)
+			} else if curF != nil {
+				curF.Uses = append(curF.Uses, splitComma(rest)...)
 			}
 		default:
 			return fmt.Errorf("%s: unknown clause %q", file, it)
